@@ -768,10 +768,12 @@ def copyto(dst, src, *args, **kwargs):
         dst.units = getattr(src, "units", dst.units)
 
 
-@implements(np.prod)
-def prod(a, *args, **kwargs):
-    res = np.prod._implementation(np.asarray(a), *args, **kwargs)
-    return res * a.units ** (a.size // res.size)
+def _bare_out(kwargs):
+    # NumPy gets the bare out= buffer: some routines hand the buffer itself back,
+    # and a result that still carries the buffer's old units would be labelled twice
+    if kwargs.get("out") is None:
+        return kwargs
+    return {**kwargs, "out": np.asarray(kwargs["out"])}
 
 
 def _label_out(kwargs, units):
@@ -779,6 +781,14 @@ def _label_out(kwargs, units):
     out = kwargs.get("out")
     if getattr(out, "units", None) is not None:
         out.units = units
+
+
+@implements(np.prod)
+def prod(a, *args, **kwargs):
+    res = np.prod._implementation(np.asarray(a), *args, **_bare_out(kwargs))
+    ret_units = a.units ** (a.size // res.size)
+    _label_out(kwargs, ret_units)
+    return res * ret_units
 
 
 @implements(np.var)
@@ -806,28 +816,28 @@ def trace(a, *args, **kwargs):
 
 @implements(np.percentile)
 def percentile(a, *args, **kwargs):
-    ret = np.percentile._implementation(np.asarray(a), *args, **kwargs) * a.units
+    ret = np.percentile._implementation(np.asarray(a), *args, **_bare_out(kwargs)) * a.units
     _label_out(kwargs, a.units)
     return ret
 
 
 @implements(np.quantile)
 def quantile(a, *args, **kwargs):
-    ret = np.quantile._implementation(np.asarray(a), *args, **kwargs) * a.units
+    ret = np.quantile._implementation(np.asarray(a), *args, **_bare_out(kwargs)) * a.units
     _label_out(kwargs, a.units)
     return ret
 
 
 @implements(np.nanpercentile)
 def nanpercentile(a, *args, **kwargs):
-    ret = np.nanpercentile._implementation(np.asarray(a), *args, **kwargs) * a.units
+    ret = np.nanpercentile._implementation(np.asarray(a), *args, **_bare_out(kwargs)) * a.units
     _label_out(kwargs, a.units)
     return ret
 
 
 @implements(np.nanquantile)
 def nanquantile(a, *args, **kwargs):
-    ret = np.nanquantile._implementation(np.asarray(a), *args, **kwargs) * a.units
+    ret = np.nanquantile._implementation(np.asarray(a), *args, **_bare_out(kwargs)) * a.units
     _label_out(kwargs, a.units)
     return ret
 
